@@ -149,7 +149,7 @@ func (h heavySpec) String() string {
 	return fmt.Sprintf("{%s %s/%d[%d,+%d] seed=%d}", h.Kind, h.PK, 2*h.Bits, h.I, h.D, h.Seed)
 }
 
-var heavyKinds = []string{"nthroot", "nthroot", "range", "prm", "prm", "cggmp21-enc", "cggmp21-enc", "cggmp21-fac", "cggmp21-fac", "cggmp21-blummod", "cggmp21-blummod"}
+var heavyKinds = []string{"nthroot", "nthroot", "range", "range", "prm", "prm", "cggmp21-enc", "cggmp21-enc", "cggmp21-fac", "cggmp21-fac", "cggmp21-blummod", "cggmp21-blummod"}
 
 func drawHeavy(t *rapid.T) heavySpec {
 	h := heavySpec{
